@@ -1003,6 +1003,9 @@ func (x *Exec) safetyOn(kind string) ([]string, bool) {
 		}
 	}
 	tags, ok := x.uc.Safety[kind]
+	if ok && !on(tags) {
+		return tags, false
+	}
 	return tags, ok
 }
 
@@ -1161,6 +1164,55 @@ func (x *Exec) execBlock(stmts []ast.Stmt, st *State) Outcomes {
 }
 
 func (x *Exec) execStmt(s ast.Stmt, st *State, label string) Outcomes {
+	hooks := x.uc != nil && len(x.uc.AtStmts) > 0 && x.inlineDepth == 0
+	var txt string
+	if hooks {
+		if _, isBlock := s.(*ast.BlockStmt); isBlock {
+			hooks = false
+		} else {
+			txt = normWS(x.src(s))
+			x.runStmtHooks(s, txt, st, true)
+		}
+	}
+	o := x.execStmt1(s, st, label)
+	if hooks && o.Normal != nil {
+		x.runStmtHooks(s, txt, o.Normal, false)
+	}
+	return o
+}
+
+func (x *Exec) runStmtHooks(s ast.Stmt, txt string, st *State, before bool) {
+	for _, as := range x.uc.AtStmts {
+		if as.Before != before || !strings.HasPrefix(txt, as.Anchor) {
+			continue
+		}
+		as.Used++
+		pos := s.End()
+		if before {
+			pos = s.Pos()
+		}
+		sp := x.specCtxAt(pos, nil)
+		if as.Assert != nil {
+			if !on(as.Assert.Tags) {
+				continue
+			}
+			g := x.specBool(as.Assert, st, sp)
+			x.assert(st, g, "assert", fmt.Sprintf("%s/assert:%s", x.uc.ID(), as.Assert.Name), as.Assert.Tags, s.Pos(), as.Assert.Text)
+			continue
+		}
+		loc := x.ghostLoc(as.LHS)
+		if loc == nil {
+			x.errorf("ghost variable %s not declared", as.LHS)
+			continue
+		}
+		x.specDepth++
+		v := x.eval(as.RHS, st, sp)
+		x.specDepth--
+		x.writeLoc(st, loc, v)
+	}
+}
+
+func (x *Exec) execStmt1(s ast.Stmt, st *State, label string) Outcomes {
 	switch s := s.(type) {
 	case *ast.BlockStmt:
 		return x.execBlock(s.List, st)
@@ -1896,12 +1948,18 @@ func (x *Exec) execLoop(lp *loopParts, st *State) Outcomes {
 	}
 	if lc != nil {
 		for _, inv := range lc.Invariants {
+			if !on(inv.Tags) {
+				continue
+			}
 			x.assert(st, evalInv(inv, st), "inv-init", fmt.Sprintf("%s/inv-init:%s", loopName, inv.Name), inv.Tags, lp.stmt.Pos(), inv.Text)
 		}
 	}
 	x.havocSet(st, mod)
 	if lc != nil {
 		for _, inv := range lc.Invariants {
+			if !on(inv.Tags) {
+				continue
+			}
 			x.assume(st, evalInv(inv, st), "inv:"+inv.Name)
 		}
 	}
@@ -1918,6 +1976,9 @@ func (x *Exec) execLoop(lp *loopParts, st *State) Outcomes {
 	out.absorb(o)
 	if back != nil && !back.pc.IsFalse() && lc != nil {
 		for _, inv := range lc.Invariants {
+			if !on(inv.Tags) {
+				continue
+			}
 			x.assert(back, evalInv(inv, back), "inv-step", fmt.Sprintf("%s/inv-step:%s", loopName, inv.Name), inv.Tags, lp.stmt.Pos(), inv.Text)
 		}
 		if d0 != nil {
